@@ -208,7 +208,7 @@ def run(repo, rep, tier):
         mult = 1
         for t, pp, k in path_condition(n):
             if k == 'for':
-                if isinstance(t, ast.List) and all(isinstance(e, ast.Constant) for e in t.elts):
+                if isinstance(t, (ast.List, ast.Tuple)) and all(isinstance(e, ast.Constant) for e in t.elts):
                     mult *= len(t.elts)
                 elif unparse(t) == 'GEX_ALGS.items()':
                     pass
